@@ -425,6 +425,7 @@ def check(facts, rep, tier, cfg):
     import whomay
     whomay.check(facts, rep, "C08.S7", "C08")
     whomay.check_new_statics(facts, rep, "C08.S7", "C08")
+    whomay.check_new_trait_methods(facts, rep, "C08.S7", "C08")
 
 
 def source_dispatch_before_eof(effs):
